@@ -9,18 +9,19 @@ ver = json.loads(subprocess.run(["/venv/bin/python", "/verif/tools/verify_seed.p
 if not ver["ok"]:
     print("NOT KEPT (verification failed):", json.dumps(ver, indent=1)); sys.exit(1)
 patch = os.path.join(src, "patch.diff")
-ap = subprocess.run(["git", "-C", "/repo", "apply", patch], capture_output=True, text=True)
+REPO = os.environ.get("SA_REPO", "/repo")
+ap = subprocess.run(["git", "-C", REPO, "apply", patch], capture_output=True, text=True)
 applied = ap.returncode == 0
 caught = []
 out = ""
 if applied:
-    r = subprocess.run(["/venv/bin/python", "-m", "sa", "check", prop], cwd="/verif", capture_output=True, text=True)
+    r = subprocess.run(["/venv/bin/python", "-m", "sa", "check", prop], cwd="/verif", capture_output=True, text=True, env=dict(os.environ, SA_REPO=REPO))
     out = r.stdout
     caught = sorted(set(re.findall(r": \[(R[^\]]+)\] ", "\n".join(l for l in out.splitlines() if not l.startswith("KNOWN-FINDING")))))
     rc = r.returncode
 else:
     rc = None
-subprocess.run(["git", "-C", "/repo", "checkout", "--", "."]); subprocess.run(["git", "-C", "/repo", "reset", "-q"])
+subprocess.run(["git", "-C", REPO, "checkout", "--", "."]); subprocess.run(["git", "-C", REPO, "reset", "-q"])
 d = os.path.join("/verif/seeded", dest)
 os.makedirs(d, exist_ok=True)
 for f in ("patch.diff", "demo.py", "notes.md"):
